@@ -20,7 +20,8 @@ Lattice -> real: coordinate = (org + k) * 2^ue, h = h * 2^ue; m, rho and the
 field f are used as they are.  Returned values are scaled back by the exact
 power of two (kernel-weighted sums of the probe kernel by 4^-ue, gradient
 components by 2^ue) and converted exactly:
-  F = Fraction(x).limit_denominator(2^15) = i + n/d,  e = round(|x-F| 2^40).
+  F = Fraction(x).limit_denominator(2^15) = i + n/d,  e = round(|x-F| 2^40),
+  q = round(x 2^20) (qok: |x| < 1000).
 No other processing.  OUT.ndjson gets one line per finished history (the
 trace handed to TLC); OUT.ndjson.journal one line per step (what a crash
 leaves behind).
@@ -142,19 +143,22 @@ def conv(x, sh):
     """x * 2^sh (exact) -> recorded value."""
     x = float(x)
     if math.isnan(x):
-        return dict(k='nan', i=0, n=0, d=1, e=0)
+        return dict(k='nan', i=0, n=0, d=1, e=0, q=0, qok=False)
     if math.isinf(x):
-        return dict(k='inf', i=0, n=0, d=1, e=0)
+        return dict(k='inf', i=0, n=0, d=1, e=0, q=0, qok=False)
     x = math.ldexp(x, sh)
     if math.isinf(x) or abs(x) >= 2.0**30:
-        return dict(k='big', i=0, n=0, d=1, e=0)
+        return dict(k='big', i=0, n=0, d=1, e=0, q=0, qok=False)
     X = Fraction(x)
     F = X.limit_denominator(DMAX)
     i = math.floor(F)
     fr = F - i
     e = abs(X - F) * 2**40
     e = int(min(Fraction(2**30), e) + Fraction(1, 2))
-    return dict(k='num', i=int(i), n=fr.numerator, d=fr.denominator, e=e)
+    qok = abs(x) < 1000.0
+    q = int(round(X * 2**20)) if qok else 0
+    return dict(k='num', i=int(i), n=fr.numerator, d=fr.denominator, e=e,
+                q=q, qok=qok)
 
 
 def get_kernel(name, dim):
